@@ -431,15 +431,23 @@ def migration_stats(tr):
       known-path-retired  .. whose peer connection id had been retired meanwhile: a fresh id is consumed for it
                           (connection_id_updated for that path right before the switch)
       retire-frames       RETIRE_CONNECTION_ID frames the server sent
+      retire-lost         .. of which the datagram did not reach the client (dropped / blackholed / sent to an address
+                          the client had left)
       dcid-checked        packets (both endpoints) sent after a Retire Prior To was processed whose destination id was read"""
-    out = {"rebinds": 0, "paths": 0, "known-path": 0, "known-path-retired": 0, "retire-frames": 0, "dcid-checked": _dcid_scan(tr)[1]}
+    out = {"rebinds": 0, "paths": 0, "known-path": 0, "known-path-retired": 0, "retire-frames": 0, "retire-lost": 0, "dcid-checked": _dcid_scan(tr)[1]}
+    v = e2e_c13.CidView(tr)
     was_active = {"0"}
     pending = None      # (t, path id) of a connection_id_updated not yet followed by anything else
     for r in tr.recs:
         if r.kind == "app" and r.what == "rebind":
             out["rebinds"] += 1
         elif r.kind == "txp" and r.ep == "s" and r.space == "app":
-            out["retire-frames"] += sum(1 for f in r.frames if f["type"] == "RETIRE_CONNECTION_ID")
+            n = sum(1 for f in r.frames if f["type"] == "RETIRE_CONNECTION_ID")
+            out["retire-frames"] += n
+            if n:
+                hit = v.dgram_of.get(("s", "app", r.pn))
+                if hit is not None and (hit[0].at is None or hit[0].dst != v.client_addr_at(hit[0].at)):
+                    out["retire-lost"] += n
         elif r.kind == "ev" and r.ep == "s":
             if r.name == "transport:path_created":
                 out["paths"] += 1
